@@ -149,4 +149,129 @@ def step (st : List NodeArray) (op : FOp) : List NodeArray :=
   | .ok r => st ++ [r]
   | .error _ => st
 
+/-! ### the heap of action objects: `Action.transform`, statement by statement
+
+Python actions are objects; `_add_dimension` and `_squeeze_dimension` assign `self.nodes` IN PLACE.
+The heap is the list of all action objects ever created (cell `i` = the node array of object `i`).
+`transform` is modelled with exactly the writes the code performs, so "no existing action changes"
+is a theorem about which cells are written, not a property of an append-only store. -/
+
+open EkwVerif.Fluent
+
+abbrev Heap := List NodeArray
+
+def Heap.cell (h : Heap) (i : Nat) : NodeArray := h.getD i default
+
+/-- what `func(self, *param)` hands back -/
+inductive TFunc (P : Type)
+  /-- a NEW action computed from the receiver (`act.multiply(v)`, `act.select(…)`, `_expand_transform`) -/
+  | build (f : NodeArray → P → Except Err NodeArray)
+  /-- the receiver itself (`lambda act, v: act`) -/
+  | self
+  /-- an action that already exists (`lambda act, v: products[v]`): cell `table p` -/
+  | lookup (table : P → Nat)
+
+/-- when `transform` wraps the node array of `func`'s result in a new action object before working
+on it. `always` is the code (`new_res = type(new_res)(new_res.nodes)`); the other two are the
+variants shown NOT to have the property (`c14_rewrap_needed`). -/
+inductive Rewrap
+  | always | ifSelf | never
+deriving DecidableEq, Repr
+
+def Rewrap.applies : Rewrap → Bool → Bool
+  | .always, _ => true
+  | .ifSelf, isSelf => isSelf
+  | .never, _ => false
+
+def callFunc {P : Type} (h : Heap) (a : Nat) : TFunc P → P → Except Err (Heap × Nat)
+  | .build f, p =>
+    match f (h.cell a) p with
+    | .ok r => .ok (h ++ [r], h.length)
+    | .error e => .error e
+  | .self, _ => .ok (h, a)
+  | .lookup t, p => if t p < h.length then .ok (h, t p) else .error .index
+
+/-- `new_res = type(new_res)(new_res.nodes)`: a new object sharing the node array -/
+def rewrap (w : Rewrap) (h : Heap) (a r : Nat) : Heap × Nat :=
+  if w.applies (r == a) then (h ++ [h.cell r], h.length) else (h, r)
+
+/-- `if dim_name not in new_res.nodes.coords: new_res._add_dimension(dim_name, dim_values[index], axis)`
+— an assignment to `new_res.nodes`, i.e. a write to cell `r` -/
+def addDimAt (h : Heap) (r : Nat) (dname : String) (values : List Coord) (index axis : Nat) : Except Err Heap :=
+  if (h.cell r).hasCoord dname then .ok h else
+  match values[index]? with
+  | none => .error .index
+  | some v =>
+    match addDim (h.cell r) dname v axis with
+    | .ok x => .ok (h.set r x)
+    | .error e => .error e
+
+/-- `res = new_res if res is None else res.join(new_res, dim_name)`: join creates a new action -/
+def accumulate (h : Heap) (res : Option Nat) (r : Nat) (dname : String) : Except Err (Heap × Nat) :=
+  match res with
+  | none => .ok (h, r)
+  | some acc =>
+    match join (h.cell acc) (h.cell r) (.name dname) false with
+    | .ok j => .ok (h ++ [j], h.length)
+    | .error e => .error e
+
+/-- one iteration of the loop of `Action.transform` -/
+def transformIter {P : Type} (w : Rewrap) (f : TFunc P) (dname : String) (values : List Coord) (axis : Nat) (a : Nat)
+    (h : Heap) (p : P) (index : Nat) (res : Option Nat) : Except Err (Heap × Nat) :=
+  match callFunc h a f p with
+  | .error e => .error e
+  | .ok (h1, r) =>
+    let (h2, r2) := rewrap w h1 a r
+    match addDimAt h2 r2 dname values index axis with
+    | .error e => .error e
+    | .ok h3 => accumulate h3 res r2 dname
+
+def transformLoopH {P : Type} (w : Rewrap) (f : TFunc P) (dname : String) (values : List Coord) (axis : Nat) (a : Nat) :
+    Heap → List P → Nat → Option Nat → Except Err (Heap × Option Nat)
+  | h, [], _, res => .ok (h, res)
+  | h, p :: ps, index, res =>
+    match transformIter w f dname values axis a h p index res with
+    | .error e => .error e
+    | .ok (h', r) => transformLoopH w f dname values axis a h' ps (index + 1) (some r)
+
+/-- `res._squeeze_dimension(dim_name)`: again a write to the cell of `res` -/
+def squeezeAt (h : Heap) (r : Nat) (dname : String) : Except Err Heap :=
+  match squeeze (h.cell r) dname false with
+  | .ok x => .ok (h.set r x)
+  | .error e => .error e
+
+/-- `dim_values`: `range(len(params))` for a dimension name, the given labels for a `Coord` -/
+def dimValues (dim : DimArg) (n : Nat) : List Coord :=
+  match dim with
+  | .name _ => intLabels n
+  | .coord _ ls => ls
+
+/-- `Action.transform(func, params, dim, axis)` on the heap: the new heap and the cell of the result -/
+def transformH {P : Type} (w : Rewrap) (h : Heap) (a : Nat) (f : TFunc P) (params : List P) (dim : DimArg) (axis : Nat) :
+    Except Err (Heap × Nat) :=
+  match transformLoopH w f dim.dimName (dimValues dim params.length) axis a h params 0 none with
+  | .error e => .error e
+  | .ok (_, none) => .error .value
+  | .ok (h', some r) =>
+    match squeezeAt h' r dim.dimName with
+    | .ok h'' => .ok (h'', r)
+    | .error e => .error e
+
+/-- the operations of a fluent program, on the heap -/
+inductive HOp (P : Type)
+  | op (o : FOp)
+  | transform (a : Nat) (f : TFunc P) (params : List P) (dim : DimArg) (axis : Nat)
+
+/-- one statement: on failure nothing the program can reach has changed -/
+def hstep {P : Type} (w : Rewrap) (h : Heap) : HOp P → Heap
+  | .op o => step h o
+  | .transform a f ps dim axis =>
+    match transformH w h a f ps dim axis with
+    | .ok (h', _) => h'
+    | .error _ => h
+
+def hrun {P : Type} (w : Rewrap) : Heap → List (HOp P) → Heap
+  | h, [] => h
+  | h, o :: os => hrun w (hstep w h o) os
+
 end EkwVerif.Names
